@@ -349,11 +349,31 @@ def _import_all_xsdata_runtime():
         importlib.import_module(name)
 
 
+LATE_DONE = set()  # late modules whose import has completed in this process
+LATE_BUSY = set()  # late modules some thread is importing right now
+LATE_LOCKS = {}  # key -> scheduler-aware lock standing in for the interpreter's per-module import lock
+
+
 def register_late(key):
-    """The `import` event: really import the module (classes are created now, the module count changes)."""
+    """The `import` event: really import the module (classes are created now, the module count changes).
+    A second thread importing the same module waits for the first, as the interpreter's module lock makes it."""
     from sim.pool import catalog as C
 
-    importlib.import_module(C.LATE[key])
+    lock = LATE_LOCKS.get(key)
+    if lock is not None:
+        lock.acquire()
+    try:
+        if key in LATE_DONE:
+            return
+        LATE_BUSY.add(key)
+        try:
+            importlib.import_module(C.LATE[key])
+        finally:
+            LATE_BUSY.discard(key)
+        LATE_DONE.add(key)
+    finally:
+        if lock is not None:
+            lock.release()
 
 
 def child_init():
